@@ -1456,6 +1456,17 @@ def fam_hostile(rnd, n_mut, n_rand):
     for src, want, show in (('using null\n1 + 2\n', 'value', '3'), ('var a = 4\nusing null\na\n', 'value', '4'), ('using 5\nfoo\n', 'error', None), ('using [ ]\nfoo\n', 'error', None),
                             ('var d = { foo = 7 }\nusing d\nusing null\nfoo\n', 'value', '7')):
         add(src, 'using:neighbour', ('main', 'coro'), want=want, show=show)
+    # Array#freeze / Dictionary#freeze with a null `this` (through Function#call / #callv): no REQUIRE_NOT_NULL (F-C15-h); Function#callv with a
+    # null argument array: ObjectLock on a null pointer (F-C15-i).  call/callv/freeze are not in the Gallina model: outcome classes only.
+    for src in ('[].freeze.call(null)\n', '{}.freeze.call(null)\n', '[].freeze.callv(null, [])\n'):
+        add(src, 'known:freeze-null-this', ('main',), True)
+    for src in ('len.callv(null, null)\n', '[].len.callv(1, null)\n'):
+        add(src, 'known:callv-null-args', ('main',), True)
+    for src, want, show in (('[].freeze.call(5)\n', 'error', None), ('[].len.call(null)\n', 'error', None), ('[3, 1].sort.call(null)\n', 'error', None), ('{}.keys.call(null)\n', 'error', None),
+                            ('var f = [].freeze\nf()\n', 'error', None), ('[].freeze.call()\n', 'error', None), ('len.callv(null, ["abc"])\n', 'value', '3'), ('len.call(null, "abc")\n', 'value', '3'),
+                            ('len.callv(null, 5)\n', 'error', None), ('len.callv(null)\n', 'error', None), ('"a".len.call(null)\n', 'value', '0'), ('var a = [1]\na.freeze()\na.add(2)\n', 'error', None),
+                            ('var a = [2, 1]\na.freeze()\na.sort()\n', 'value', '[1,2]'), ('var x = 1\n(&x).get.call(null)\n', 'error', None)):
+        add(src, 'nullthis:neighbour', ('main', 'coro'), want=want, show=show)
     # intersection() with three or more arguments: the running result doubles as input and is padded with nulls when a later
     # array is longer (F-C15-g) - wrong values / a spurious error; the neighbours with shorter later arrays are right
     for src, badline in (('intersection([-5], [-5], [-5, 0, 7])\n', 'hostile value [-5,null]'), ('intersection([1], [2], [0, 5])\n', 'hostile value [null]'),
@@ -1585,6 +1596,8 @@ def classify(case, detail, impl_lines):
         if 'model=abort:nullimport' in detail: return 'using-null-import'
         if 'tag=known:cyclic-json' in detail: return 'cyclic-traversal'
         if 'tag=known:null-import' in detail: return 'using-null-import'
+        if 'tag=known:freeze-null-this' in detail: return 'freeze-null-this'
+        if 'tag=known:callv-null-args' in detail: return 'callv-null-args'
         if 'hostile' in detail:
             m = re.search(r'tag=(\S+)', detail)
             tag = m.group(1) if m else 'hostile'
